@@ -28,6 +28,9 @@ struct Config {
 
 /** Arm the scheduler; the calling thread becomes simulated thread 0. Only call with no other live threads. */
 void Arm(const Config& cfg);
+/** PCT only: draw the priority change points afresh over the next `expected_points_from_now` scheduling points and give every
+ *  live thread a fresh random priority. Call right before the concurrent phase of a run whose setup is single-threaded. */
+void RedrawPct(uint64_t expected_points_from_now);
 /** All simulated threads other than the caller must have finished (or be parked forever: they are leaked). */
 void Disarm();
 bool Armed();
